@@ -355,7 +355,9 @@ func c15StructuredCase(rt *rapid.T, rec *vt.Rec) {
 			pj = nil
 		}
 		mj, _ := json.Marshal(method)
-		body := fmt.Sprintf(`{"jsonrpc":"2.0","id":%s,"method":%s`, idRaw, mj)
+		// the version member is what other client libraries make of it: "2.0", an older one, absent
+		ver := rapid.SampledFrom([]string{`"jsonrpc":"2.0",`, `"jsonrpc":"2.0",`, `"jsonrpc":"2.0",`, `"jsonrpc":"1.0",`, `"jsonrpc":"2",`, `"jsonrpc":"",`, ``}).Draw(rt, "version")
+		body := fmt.Sprintf(`{%s"id":%s,"method":%s`, ver, idRaw, mj)
 		if pj != nil {
 			body += `,"params":` + string(pj)
 		}
